@@ -389,6 +389,14 @@ def f40_not_extracted(prob, case, flavor):
     return prob.get("template") in JSONT and prob.get("kind") == "unbound-name" and "not-extracted" in str(prob.get("construct")).split("+")
 
 
+def f45b_operator_named_guard(prob, case, flavor):
+    """F45b: the ONLY names without a stub are named guards spelled exactly like a composite operator (a bare string
+    `"and"` / `"or"` / `"not"`): the extractor takes the string for the operator, the engine for a guard name"""
+    ne = prob.get("not_extracted") or []
+    return (prob.get("template") in JSONT and prob.get("kind") == "unbound-name" and "not-extracted" in str(prob.get("construct")).split("+")
+            and bool(ne) and set(ne) <= {"and", "or", "not"})
+
+
 def f41_not_discoverable(prob, case, flavor):
     return prob.get("template") in JSONT and prob.get("kind") == "unbound-name" and "not-discoverable" in str(prob.get("construct")).split("+")
 
@@ -412,6 +420,7 @@ CLASSIFIERS = {
     "c17-guard-structure-lost-pythonic": f16_guard_structure_lost,
     "c17-stateIn-stub-overrides-builtin": f16_statein_stub,
     "c17-json-template-name-not-extracted": f40_not_extracted,
+    "c17-json-template-operator-named-guard-not-extracted": f45b_operator_named_guard,
     "c17-json-template-name-not-discoverable": f41_not_discoverable,
     "c17-single-file-invalid-python": f42_unverified_file_invalid,
     "c17-single-file-stub-name-collision": f44_stub_name_collision,
